@@ -390,7 +390,9 @@ pub const MAX_KEPT_FAILURES: usize = 20_000;
 // watchdog: a case that does not terminate is a violation (hang), not a stuck check
 // ------------------------------------------------------------------------------------------
 use std::sync::Mutex;
-static WATCH: Mutex<Vec<Option<(Instant, String, String)>>> = Mutex::new(Vec::new());
+static WATCH: Mutex<Vec<Option<(Instant, String, String, u64)>>> = Mutex::new(Vec::new());
+static WATCHDOG_STARTED: std::sync::atomic::AtomicBool = std::sync::atomic::AtomicBool::new(false);
+static DEFAULT_LIMIT: AtomicUsize = AtomicUsize::new(120);
 thread_local! {
     static WATCH_SLOT: std::cell::Cell<usize> = const { std::cell::Cell::new(usize::MAX) };
 }
@@ -398,6 +400,9 @@ thread_local! {
 pub struct WatchGuard(usize);
 impl Drop for WatchGuard {
     fn drop(&mut self) {
+        if self.0 == usize::MAX {
+            return;
+        }
         if let Ok(mut w) = WATCH.lock() {
             w[self.0] = None;
         }
@@ -407,6 +412,12 @@ impl Drop for WatchGuard {
 /// Register the case the current thread is working on. `case` is a JSON string used as the
 /// replay file when the case exceeds the limit.
 pub fn watch(property: &str, case: impl FnOnce() -> String) -> WatchGuard {
+    watch_limit(property, DEFAULT_LIMIT.load(Ordering::Relaxed) as u64, case)
+}
+
+/// Like `watch`, with an own time limit for this case. Nested watches on one thread keep the
+/// outer entry (the outer case description is the more useful one).
+pub fn watch_limit(property: &str, limit_s: u64, case: impl FnOnce() -> String) -> WatchGuard {
     let slot = WATCH_SLOT.with(|s| {
         if s.get() == usize::MAX {
             let mut w = WATCH.lock().unwrap();
@@ -415,21 +426,32 @@ pub fn watch(property: &str, case: impl FnOnce() -> String) -> WatchGuard {
         }
         s.get()
     });
-    WATCH.lock().unwrap()[slot] = Some((Instant::now(), property.to_string(), case()));
+    let mut w = WATCH.lock().unwrap();
+    if w[slot].is_some() {
+        // nested: leave the outer entry in place; the guard of the inner one must not clear it
+        return WatchGuard(usize::MAX);
+    }
+    w[slot] = Some((Instant::now(), property.to_string(), case(), limit_s));
     WatchGuard(slot)
 }
 
+/// property of the running check (set by install_exit_guard)
+pub fn current_property() -> String {
+    GUARD_PROPERTY.lock().map(|g| g.clone()).unwrap_or_default()
+}
+
 pub fn start_watchdog(limit_s: u64) {
+    DEFAULT_LIMIT.store(limit_s as usize, Ordering::Relaxed);
+    if WATCHDOG_STARTED.swap(true, Ordering::SeqCst) {
+        return;
+    }
     std::thread::spawn(move || loop {
         std::thread::sleep(std::time::Duration::from_millis(500));
         let hit = {
             let w = WATCH.lock().unwrap();
-            w.iter()
-                .flatten()
-                .find(|(t, _, _)| t.elapsed().as_secs() >= limit_s)
-                .cloned()
+            w.iter().flatten().find(|(t, _, _, l)| t.elapsed().as_secs() >= *l).cloned()
         };
-        if let Some((_, property, case)) = hit {
+        if let Some((_, property, case, limit_s)) = hit {
             let dir = verif_dir().join("replays").join(&property);
             let _ = std::fs::create_dir_all(&dir);
             let path = dir.join("hang.json");
@@ -461,7 +483,7 @@ extern "C" fn exit_guard() {
     let property = GUARD_PROPERTY.lock().map(|g| g.clone()).unwrap_or_default();
     let cases: Vec<String> = WATCH
         .lock()
-        .map(|w| w.iter().flatten().map(|(_, _, c)| c.clone()).collect())
+        .map(|w| w.iter().flatten().map(|(_, _, c, _)| c.clone()).collect())
         .unwrap_or_default();
     let dir = verif_dir().join("replays").join(&property);
     let _ = std::fs::create_dir_all(&dir);
